@@ -1,4 +1,4 @@
 SPECIFICATION Spec
-CONSTANTS MaxDepth = 2 MaxN = 2 MaxHistView = 0 Fault = "output-resets"
+CONSTANTS MaxDepth = 2 MaxN = 2 MaxHistView = 0 HistClassIdx = {4, 5} Fault = "output-resets"
 INVARIANTS InvStep InvAccumulated InvOutput
 CHECK_DEADLOCK FALSE
